@@ -593,3 +593,26 @@ Theorem stack_always_full : forall c m cx,
   CLeafOK c -> c_f12 c m = false -> CRegistered c m cx -> c_f82 c m = false ->
   c_interest c m = always -> deliver c m cx = c_all c.
 Proof. intros c m cx HL H12 HR. apply stack_always. apply CSound_of; assumption. Qed.
+
+(** after a [Handle::reload] of a layer the Registry's "has per-subscriber filters" flag may be stale (filter ids
+    are never given back): the two theorems hold for ANY value of that flag the code can have - [never] for every
+    value, [always] whenever the flag is set or no Filtered is left *)
+Theorem stack_never_any_has : forall has c m cx,
+  CLeafOK c -> c_f12 c m = false -> CRegistered c m cx ->
+  fst (c_reg has c m None) = never -> deliver c m cx = [].
+Proof.
+  intros has c m cx HL H12 HR Hn. unfold deliver.
+  destruct (coll_never c has m cx None (CSound_of c m cx HL H12 HR) Hn) as [He | [_ [Hr _]]].
+  - rewrite He. reflexivity.
+  - rewrite Hr. destruct (c_en c m cx); reflexivity.
+Qed.
+
+Theorem stack_always_any_has : forall has c m cx,
+  CLeafOK c -> c_f12 c m = false -> CRegistered c m cx -> c_f82 c m = false ->
+  (has = true \/ c_nfilt c = 0) ->
+  fst (c_reg has c m None) = always -> deliver c m cx = c_all c.
+Proof.
+  intros has c m cx HL H12 HR H82 Hh Ha. unfold deliver.
+  destruct (coll_always c has m cx None (CSound_of c m cx HL H12 HR) H82 Ha) as [He [H1 H2]]. rewrite He.
+  destruct Hh as [Hh|Hh]; [apply H1; exact Hh | apply H2; exact Hh].
+Qed.
